@@ -1,0 +1,105 @@
+//go:build verif
+
+package server
+
+import (
+	"net/http"
+	"sort"
+
+	cdcreader "github.com/zilliztech/milvus-cdc/core/reader"
+	serverapi "github.com/zilliztech/milvus-cdc/server/api"
+	"github.com/zilliztech/milvus-cdc/server/model"
+	"github.com/zilliztech/milvus-cdc/server/model/meta"
+)
+
+// NewMetaCDCForVerif builds a MetaCDC around an injected meta store factory and MQ factory creator.
+// It performs the same field initialisation as NewMetaCDC and skips only its connectivity checks
+// (meta store construction, source etcd ping, MQ connection check), which need real services.
+func NewMetaCDCForVerif(serverConfig *CDCServerConfig, factory serverapi.MetaStoreFactory, creator cdcreader.FactoryCreator) *MetaCDC {
+	if serverConfig.MaxNameLength == 0 {
+		serverConfig.MaxNameLength = 256
+	}
+	cdc := &MetaCDC{
+		metaStoreFactory: factory,
+		config:           serverConfig,
+		mqFactoryCreator: creator,
+	}
+	cdc.collectionNames.data = make(map[string][]string)
+	cdc.collectionNames.excludeData = make(map[string][]string)
+	cdc.collectionNames.extraInfos = make(map[string]model.ExtraInfo)
+	cdc.collectionNames.nameMapping = make(map[string]map[string]string)
+	cdc.cdcTasks.data = make(map[string]*meta.TaskInfo)
+	cdc.replicateEntityMap.data = make(map[string]*ReplicateEntity)
+	return cdc
+}
+
+// NewCDCHandlerForVerif returns the real /cdc HTTP handler around the given service.
+func NewCDCHandlerForVerif(api CDCService, serverConfig *CDCServerConfig) http.Handler {
+	s := &CDCServer{api: api, serverConfig: serverConfig}
+	return s.getCDCHandler()
+}
+
+// VerifEntity is the observable state of one per-target replicate entity.
+type VerifEntity struct {
+	RefCnt       int32
+	QuitFuncKeys []string
+}
+
+// VerifSnapshot is a read-only copy of the in-memory bookkeeping of MetaCDC.
+type VerifSnapshot struct {
+	Data        map[string][]string
+	ExcludeData map[string][]string
+	ExtraInfos  map[string]model.ExtraInfo
+	NameMapping map[string]map[string]string
+	TaskStates  map[string]int
+	TaskReasons map[string]string
+	Entities    map[string]VerifEntity
+}
+
+func (e *MetaCDC) VerifSnapshot() VerifSnapshot {
+	s := VerifSnapshot{
+		Data: map[string][]string{}, ExcludeData: map[string][]string{}, ExtraInfos: map[string]model.ExtraInfo{},
+		NameMapping: map[string]map[string]string{}, TaskStates: map[string]int{}, TaskReasons: map[string]string{}, Entities: map[string]VerifEntity{},
+	}
+	e.collectionNames.RLock()
+	for k, v := range e.collectionNames.data {
+		s.Data[k] = append([]string(nil), v...)
+	}
+	for k, v := range e.collectionNames.excludeData {
+		s.ExcludeData[k] = append([]string(nil), v...)
+	}
+	for k, v := range e.collectionNames.extraInfos {
+		s.ExtraInfos[k] = v
+	}
+	for k, v := range e.collectionNames.nameMapping {
+		m := map[string]string{}
+		for a, b := range v {
+			m[a] = b
+		}
+		s.NameMapping[k] = m
+	}
+	e.collectionNames.RUnlock()
+	e.cdcTasks.RLock()
+	for k, v := range e.cdcTasks.data {
+		s.TaskStates[k] = int(v.State)
+		s.TaskReasons[k] = v.Reason
+	}
+	e.cdcTasks.RUnlock()
+	e.replicateEntityMap.RLock()
+	for k, v := range e.replicateEntityMap.data {
+		ve := VerifEntity{RefCnt: v.refCnt.Load()}
+		v.taskQuitFuncs.Range(func(key string, _ func()) bool {
+			ve.QuitFuncKeys = append(ve.QuitFuncKeys, key)
+			return true
+		})
+		sort.Strings(ve.QuitFuncKeys)
+		s.Entities[k] = ve
+	}
+	e.replicateEntityMap.RUnlock()
+	return s
+}
+
+// CheckDuplicateForVerif exposes checkDuplicateCollection.
+func (e *MetaCDC) CheckDuplicateForVerif(uKey string, newCollectionNames []string, extraInfo model.ExtraInfo, mapCollectionNames map[string]string) ([]string, error) {
+	return e.checkDuplicateCollection(uKey, newCollectionNames, extraInfo, mapCollectionNames)
+}
